@@ -315,6 +315,24 @@ theorem idft2_dft2_full_period (f : Arr ℂ) (m n : ℕ) (hm : f.s0 = m) (hn : f
     rw [← mul_assoc, ← Complex.ofReal_mul, sqrt_abs_inv_mul_self m n hm0 hn0]
     push_cast; field_simp
 
+/-- **the plain calls invert each other.** `dft2(f, α)` and `idft2(F, α)` — nothing passed but the sampling, every other argument at
+the default regenerated from the signatures (shape = input shape, zero shift and offset, and the *same* normalisation flag on both
+sides: `Gen.fwDft2DefaultUnitary`, `Gen.fwIdft2DefaultUnitary`) — satisfy `idft2(dft2(f, α), α) = f` at `α = (1/m, 1/n)`, and the plain
+forward call is the unitary, centred, unshifted transform. A default changed on one side only (say `idft2(…, unitary=False)`) makes
+this false and the proof stops. -/
+theorem default_calls_roundtrip (f : Arr ℂ) (m n : ℕ) (hm : f.s0 = m) (hn : f.s1 = n) (hm0 : 0 < m) (hn0 : 0 < n)
+    (x y : ℕ) (hx : x < m) (hy : y < n) :
+    (idft2Default (R := ℝ) (dft2Default f (1 / (m : ℝ)) (1 / (n : ℝ))) (1 / (m : ℝ)) (1 / (n : ℝ))).get x y = f.get x y ∧
+    dft2Default f (1 / (m : ℝ)) (1 / (n : ℝ)) = dft2 f (1 / (m : ℝ)) (1 / (n : ℝ)) m n 0 0 0 0 true := by
+  have h := idft2_dft2_full_period f m n hm hn hm0 hn0 true x y hx hy
+  have e : dft2Default f (1 / (m : ℝ)) (1 / (n : ℝ)) = dft2 f (1 / (m : ℝ)) (1 / (n : ℝ)) m n 0 0 0 0 true := by
+    simp [dft2Default, Gen.fwDft2ShapeDefault, Gen.fwDft2DefaultShift, Gen.fwDft2DefaultOffset, Gen.fwDft2DefaultUnitary,
+      RealLike.ofInt, hm, hn]
+  refine ⟨?_, e⟩
+  rw [e]
+  simpa [idft2Default, Gen.fwDft2ShapeDefault, Gen.fwIdft2DefaultShift, Gen.fwIdft2DefaultUnitary, RealLike.ofInt, dft2C_s0, dft2C_s1]
+    using h
+
 open ComplexConjugate in
 /-- **the round trip with shifts and offsets is a rolled, phased copy.** Full period (`α = (1/m, 1/n)`, output shape = input
 shape, same flag on both sides), forward transform with any real shift `(shr, shc)` and integer offset `(offr, offc)`, inverse
